@@ -322,6 +322,22 @@ def bisc_cases(draw, max_n=5):
 
 
 @st.composite
+def sparse_long_cases(draw):
+    """n = 6 with few long members: every permutation of length <= 2, a random half of length 3
+    (so the shortest learned patterns have length 3) and a handful of members of length 4-6 that
+    are not closed under deleting entries - cheap to mine, and the members are long enough for
+    occurrences followed by several unused entries."""
+    universe = _perm_list(6)
+    ranks = [i for i, t in enumerate(universe) if len(t) <= 2]
+    for i, t in enumerate(universe):
+        if len(t) == 3 and draw(st.booleans()):
+            ranks.append(i)
+    longer = [i for i, t in enumerate(universe) if len(t) >= 4]
+    ranks += draw(st.lists(st.sampled_from(longer), min_size=1, max_size=6, unique=True))
+    return {"n": 6, "m": draw(st.sampled_from([3, 3, 4])), "ranks": sorted(ranks)}
+
+
+@st.composite
 def private_cases(draw):
     p, t = draw(gen.planted(3, 6))
     k = len(p)
@@ -364,6 +380,7 @@ def auto_cases(draw, budget):
 
 def shard_generated(acc, shard, nshards, n_bisc, n_priv, n_auto, budget):
     engine.hyp_run(acc, "bisc", check_bisc, bisc_cases(5 if n_bisc < 200 else 6), n_bisc, shard)
+    engine.hyp_run(acc, "bisc", check_bisc, sparse_long_cases(), max(8, n_bisc // 5), shard)
     engine.hyp_run(acc, "private", check_private, private_cases(), n_priv, shard)
     engine.hyp_run(acc, "suffice", check_suffice, suffice_cases(5 if n_bisc < 200 else 6), max(20, n_priv // 3), shard)
     if n_auto:
